@@ -50,6 +50,7 @@ type Outcome struct {
 	HandoversSeen        int
 	HandoverViol2        []string // judged with the harness' own scrape counts
 	IndependentHandovers int
+	LostMarkMoves        int // moves judged whose in-transfer mark never reached the source
 	Err                  string
 	FaultsApplied        int
 	Removals             int      // shards removed by the coordinator
@@ -181,6 +182,9 @@ func Run(sc Scenario, root string, rseed int64) *Outcome {
 		srcAtBegin, dstAtBegin int
 	}
 	moves := map[string]*moveRec{}
+	// moves whose in-transfer mark never reached the source (its POST was lost): the destination was given the target
+	// while the in-sync source went on listing it in normal state
+	lostMark := map[string]*moveRec{}
 	mkey := func(id, src int) string { return fmt.Sprintf("%d/%d", id, src) }
 	step := func(label string, c int, rounds func(shard int) int) (CycleObs, Snapshot, bool) {
 		before := w.Snapshot()
@@ -360,7 +364,77 @@ func Run(sc Scenario, root string, rseed int64) *Outcome {
 				out.HandoverViol2 = append(out.HandoverViol2, fmt.Sprintf("%s %d: target %d left source shard %d after the source really scraped it %d times and the best normal copy elsewhere (recorded destination: shard %d) %d times (harness counts at the target farm)", label, c, id, si, srcScrapes, mv.dst, dstScrapes))
 			}
 		}
+		// moves that lost their mark: the source copy may go only when the destination (or another normal copy) has
+		// really scraped the target three times since it got it
+		for k, mv := range lostMark {
+			var id, si int
+			fmt.Sscanf(k, "%d/%d", &id, &si)
+			if si >= len(after.Shards) || w.Gen(si) != mv.srcGen {
+				delete(lostMark, k)
+				continue
+			}
+			if e, still := after.Shards[si][id]; still {
+				if e.State == "in_transfer" {
+					delete(lostMark, k) // planned again and marked this time
+				}
+				continue
+			}
+			delete(lostMark, k)
+			discovered := false
+			for _, d := range w.Discovered() {
+				if d == id {
+					discovered = true
+				}
+			}
+			if !discovered || mv.dst >= w.NumShards() || w.Gen(mv.dst) != mv.dstGen {
+				continue
+			}
+			best := -1
+			for sj, m2 := range before.Shards {
+				if sj == si || sj >= w.NumShards() {
+					continue
+				}
+				if e2, ok := m2[id]; ok && e2.State == "" {
+					n := w.ScrapedBy(sj, id)
+					if sj == mv.dst {
+						n -= mv.dstAtBegin
+					}
+					if n > best {
+						best = n
+					}
+				}
+			}
+			out.IndependentHandovers++
+			out.LostMarkMoves++
+			if best >= 0 && best < 3 {
+				out.HandoverViol2 = append(out.HandoverViol2, fmt.Sprintf("%s %d: target %d was given to shard %d while the in-sync shard %d went on listing it (the update that would have marked it in_transfer was lost); it left shard %d when the best normal copy elsewhere had really been scraped %d times since then (harness counts at the target farm)", label, c, id, mv.dst, si, si, best))
+			}
+		}
 		// moves begun
+		if co.AllSync {
+			for dj, m2 := range after.Shards {
+				for id, e2 := range m2 {
+					if e2.State != "" {
+						continue
+					}
+					if dj < len(before.Shards) {
+						if _, had := before.Shards[dj][id]; had {
+							continue
+						}
+					}
+					for si, m := range before.Shards {
+						if si == dj || si >= len(after.Shards) {
+							continue
+						}
+						b, ok := m[id]
+						a, still := after.Shards[si][id]
+						if ok && still && b.State == "" && a.State == "" {
+							lostMark[mkey(id, si)] = &moveRec{srcGen: w.Gen(si), dst: dj, dstGen: w.Gen(dj), dstAtBegin: w.ScrapedBy(dj, id)}
+						}
+					}
+				}
+			}
+		}
 		for si, m := range after.Shards {
 			for id, e := range m {
 				if e.State == "in_transfer" && si < len(before.Shards) {
